@@ -385,3 +385,46 @@ Definition model_run (c : cfg) (t : task) (rcs : list Z) : gerr + lst :=
       inr (lrun (t_ranks t) ep rcs c (launch_prog c l t)
                 (mkL (st0 [] (squeeze (c_ps_abs c ++ B "/" ++ t_uid t))) [] None None))
   end.
+
+(* ---- the rank synchronisation (rp_sync_ranks) across the ranks of one task ---------------
+     rp_sync_ranks() { sig=$1
+                       echo $RP_RANK >> $sig.sig
+                       while test $(cat $sig.sig | wc -l) -lt $RP_RANKS; do sleep 1; done }
+   The marker file gets one line per arriving rank; a rank that has arrived polls the
+   number of lines until it is at least RP_RANKS; nobody removes the file.
+   The ranks run concurrently: a schedule is any sequence of these events. *)
+Inductive bev :=
+| Arrive (r : Z)      (* rank r appends its line to the marker file *)
+| Poll (r : Z).       (* rank r evaluates the loop condition once *)
+
+Record bst := mkB {
+  b_file : list Z;     (* lines of <sig>.sig *)
+  b_passed : list Z }. (* ranks that have left rp_sync_ranks *)
+
+Definition bmemZ (r : Z) (l : list Z) : bool := existsb (Z.eqb r) l.
+
+Definition bstep (n : nat) (e : bev) (s : bst) : bst :=
+  match e with
+  | Arrive r => mkB (b_file s ++ [r]) (b_passed s)
+  | Poll r =>
+      if bmemZ r (b_file s) && negb (bmemZ r (b_passed s)) && Nat.leb n (List.length (b_file s))
+      then mkB (b_file s) (r :: b_passed s)
+      else s
+  end.
+
+Definition brun (n : nat) (sched : list bev) (s : bst) : bst := fold_left (fun s e => bstep n e s) sched s.
+
+Definition b0 : bst := mkB [] [].
+
+Definition arrivals (sched : list bev) : list Z :=
+  flat_map (fun e => match e with Arrive r => [r] | Poll _ => [] end) sched.
+
+(* the variant in which rank 0 removes the marker when it leaves (NOT what the code does; used to show
+   that the theorems of Script.Barrier are not vacuous: with it a rank can be blocked for ever) *)
+Definition bstep_rm (n : nat) (e : bev) (s : bst) : bst :=
+  match e with
+  | Poll 0 => let s' := bstep n e s in
+              if bmemZ 0 (b_passed s') && negb (bmemZ 0 (b_passed s)) then mkB [] (b_passed s') else s'
+  | _ => bstep n e s
+  end.
+Definition brun_rm (n : nat) (sched : list bev) (s : bst) : bst := fold_left (fun s e => bstep_rm n e s) sched s.
